@@ -3,6 +3,7 @@ package main
 import (
 	"fmt"
 	"go/ast"
+	"go/token"
 	"go/types"
 	"runtime/debug"
 	"sort"
@@ -134,6 +135,18 @@ func (e *Engine) analyse(fn *ssa.Function, blk *Block) (rep *FuncReport) {
 		for _, cl := range blk.All("holds") {
 			e.assumeHolds(st, fr, cl)
 		}
+		for _, cl := range blk.All("holds-cond") {
+			// the caller holds the Locker of this *sync.Cond parameter
+			x, err := parseSpec(cl.Expr)
+			if err != nil {
+				e.fail("%v", err)
+				continue
+			}
+			c := e.clauseCtx(st, fr, nil)
+			if cv, ok := c.eval(x).V.(T); ok {
+				st.Locks = append(st.Locks, HeldLock{Key: e.condLocker(st, cv), Base: cv, Mode: LockW})
+			}
+		}
 		for _, cl := range blk.All("requires") {
 			t := e.evalClause(st, fr, cl, nil)
 			st.assume(t)
@@ -239,6 +252,26 @@ func (e *Engine) siteExists(fn *ssa.Function, site string) bool {
 	var n int
 	fmt.Sscan(site[i+1:], &n)
 	cnt := 0
+	if callee == "recv" {
+		for _, b := range fn.Blocks {
+			for _, in := range b.Instrs {
+				switch x := in.(type) {
+				case *ssa.UnOp:
+					if x.Op == token.ARROW {
+						cnt++
+					}
+				case *ssa.Select:
+					for _, s := range x.States {
+						if s.Dir == types.RecvOnly {
+							cnt++
+							break
+						}
+					}
+				}
+			}
+		}
+		return cnt > n
+	}
 	if callee == "send" {
 		for _, b := range fn.Blocks {
 			for _, in := range b.Instrs {
@@ -363,7 +396,7 @@ func (e *Engine) checkExitLocks(st *State, fr *Frame, blk *Block, panicExit bool
 	name := e.fnName[fr.Fn]
 	want := 0
 	if blk != nil {
-		want = len(blk.All("holds")) - len(blk.All("releases"))
+		want = len(blk.All("holds")) + len(blk.All("holds-cond")) - len(blk.All("releases"))
 		if blk.First("lock-transfer") != nil {
 			return
 		}
